@@ -113,6 +113,61 @@ Section Prims.
       destruct cs; reflexivity.
   Qed.
 
+  (** the general case: the key may also be NULL (a member put into the object with the array API);
+      [compare_strings] then answers 1 whichever side the NULL is on *)
+  Definition strof (kp : positive) : bytes :=
+    match h_str h !! kp with Some raw => cstr raw | None => [] end.
+  Definition str_ok (kp : positive) : Prop :=
+    kp ∈ h_live h /\ exists raw : bytes, h_str h !! kp = Some raw /\ existsb (Z.eqb 0) raw = true.
+  Definition node_ok0 (x : positive) : Prop :=
+    x ∈ h_live h /\ is_Some (h_dat h !! x) /\ (forall kp, key_ptr x = Some kp -> str_ok kp).
+  (** what [compare_strings(x->string, y->string, cs)] returns *)
+  Definition cmpz (cs : bool) (x y : positive) : Z :=
+    match key_ptr x, key_ptr y with
+    | Some a, Some b => if Pos.eqb a b then 0 else key_cmp cs (strof a) (strof b)
+    | _, _ => 1
+    end.
+  (** the same for members that do have keys *)
+  Definition kcmp (cs : bool) (x y : positive) : Z := key_cmp cs (keyof x) (keyof y).
+
+  Lemma node_ok_ok0 x : node_ok x -> node_ok0 x.
+  Proof.
+    intros (Hl & Hd & kp & raw & Ek & Lk & Sk & Zk). split; [exact Hl|]. split; [exact Hd|].
+    intros kp' Ek'. rewrite Ek in Ek'. injection Ek' as <-. split; [exact Lk|]. exists raw. split; assumption.
+  Qed.
+
+  Lemma node_ok0_live x : node_ok0 x -> x ∈ h_live h.
+  Proof. intros [H _]. exact H. Qed.
+
+  Lemma get_key_with0 m x :
+    node_ok0 x -> get_key (Some x) (with_lnk h m) = Ret (key_ptr x, with_lnk h m).
+  Proof.
+    intros (Hl & [d Hd] & _). unfold get_key, ld_dat, bindM, chk, ret, key_ptr. cbn.
+    destruct (decide (x ∈ h_live h)) as [_|N]; [|contradiction]. cbn. rewrite Hd. reflexivity.
+  Qed.
+
+  Lemma compare_strings_with0 m cs x y :
+    node_ok0 x -> node_ok0 y ->
+    compare_strings (key_ptr x) (key_ptr y) cs (with_lnk h m) = Ret (cmpz cs x y, with_lnk h m).
+  Proof.
+    intros (_ & _ & Hx) (_ & _ & Hy). unfold cmpz.
+    destruct (key_ptr x) as [kx|]; [|reflexivity].
+    destruct (key_ptr y) as [ky|]; [|reflexivity].
+    cbn [compare_strings]. destruct (Pos.eqb kx ky); [reflexivity|].
+    destruct (Hx kx eq_refl) as (Lx & rx & Sx & Zx). destruct (Hy ky eq_refl) as (Ly & ry & Sy & Zy).
+    rewrite (bind_eq _ _ _ _ _ (ld_cstr_with m kx rx Lx Sx Zx)).
+    rewrite (bind_eq _ _ _ _ _ (ld_cstr_with m ky ry Ly Sy Zy)).
+    unfold strof. rewrite Sx, Sy. destruct cs; reflexivity.
+  Qed.
+
+  Lemma cmpz_kcmp cs x y : node_ok x -> node_ok y -> cmpz cs x y = kcmp cs x y.
+  Proof.
+    intros (_ & _ & kx & rx & Ekx & _ & Sx & _) (_ & _ & ky & ry & Eky & _ & Sy & _).
+    unfold cmpz, kcmp, keyof, strof. rewrite Ekx, Eky, Sx, Sy.
+    destruct (Pos.eqb_spec kx ky) as [E|E]; [|reflexivity].
+    subst ky. rewrite Sx in Sy. injection Sy as <-. rewrite key_cmp_refl. reflexivity.
+  Qed.
+
   (** the order of the variant on member nodes; total and transitive on ALL ids because [keyof]
       always is a C string *)
   Definition hle (cs : bool) (x y : positive) : bool := key_le cs (keyof x) (keyof y).
@@ -346,3 +401,31 @@ Proof.
     injection HE as HE1 HE2. subst n0. rewrite Hn in Hx0. exact Hx0.
   - rewrite Hn, Hp in Hx by (right; congruence). exact Hx.
 Qed.
+
+(** * The object's child field *)
+
+Definition nd_set_child (d : ndata) (c : ptr) : ndata :=
+  mkND (nd_type d) (nd_vstr d) (nd_vint d) (nd_vdbl d) (nd_key d) c.
+
+Lemma get_child_eq h o d : o ∈ h_live h -> h_dat h !! o = Some d -> get_child (Some o) h = Ret (nd_child d, h).
+Proof.
+  intros Hl Hd. unfold get_child, ld_dat, bindM, chk, ret.
+  destruct (decide (o ∈ h_live h)) as [_|N]; [|contradiction]. rewrite Hd. reflexivity.
+Qed.
+
+Lemma set_child_eq h o d c : o ∈ h_live h -> h_dat h !! o = Some d ->
+  set_child (Some o) c h = Ret (tt, with_dat h (<[o := nd_set_child d c]> (h_dat h))).
+Proof.
+  intros Hl Hd. unfold set_child, ld_dat, st_dat, bindM, chk, ret.
+  destruct (decide (o ∈ h_live h)) as [_|N]; [|contradiction]. rewrite Hd.
+  destruct (decide (o ∈ h_live h)) as [_|N]; [|contradiction]. rewrite Hd. reflexivity.
+Qed.
+
+Lemma chain_set_head_prev m x r nx n p q :
+  seg m None (x :: r) nx -> m !! x = Some (n, p) -> x ∉ r -> seg (<[x := (n, q)]> m) None (x :: r) nx.
+Proof.
+  cbn [seg]. intros (n' & p' & Hx & _ & Hn & Hr) Hm Hnr. rewrite Hm in Hx. injection Hx as <- <-.
+  exists n, q. split; [apply lookup_insert|]. split; [intros ? ?; discriminate|]. split; [exact Hn|].
+  eapply seg_frame; [|exact Hr]. intros z Hz. apply lookup_insert_ne. intros ->. contradiction.
+Qed.
+
